@@ -285,6 +285,7 @@ class ParseContract(object):
         st2 = st.fork()
         st2.assume(z3.And(Val.is_L(cmds), z3.Or(FLD("version")(pn) == Val.I(2), FLD("version")(pn) == Val.I(3))))
         st2.ghost["node_lists"] = [Val.items(cmds)]
+        st2.ghost["parsed_commands"] = cmds
         node_shape_facts(st2, Val.items(cmds))
         yield st2, dyn(Val.O(pn))
         s3 = st.fork()
@@ -297,6 +298,11 @@ class ConvertContract(object):
     """convert_eems2_commands (C16): one converted node per node, or ProgramError"""
 
     def apply(self, eng, st, f, args, kwargs):
+        parsed = st.ghost.get("parsed_commands")
+        if parsed is not None and getattr(eng, "from_source_site", False):
+            # C16: an EEMS 2.0 file is converted as a whole - the converter is handed every parsed command node, in order
+            eng.oblige(st, eng.current.key + "/the converter receives the whole list of parsed command nodes", eng.to_dyn(st, args[0]) == parsed, kind="call",
+                       meta={"clause": "convert"}, assume_after=False)
         out = smt.fresh("converted_nodes", Val)
         s2 = st.fork()
         s2.assume(Val.is_L(out))
